@@ -378,6 +378,8 @@ def make_super(I, n, env):
 
 def int_to_sstr(v, is_bytes):
     z = to_z3_int(v)
+    if z3.is_app(z) and z.decl().kind() == z3.Z3_OP_SEQ_LENGTH:
+        return SStr(z3.IntToStr(z), is_bytes)
     t = z3.If(z >= 0, z3.IntToStr(z), z3.Concat(z3.StringVal("-"), z3.IntToStr(-z)))
     return SStr(z3.simplify(t), is_bytes)
 
